@@ -509,6 +509,13 @@ fn prepare(sc: &Scenario, renderer: &str, rootp: &Path, tag: &str, tmp_root: &Pa
         .stdin(Stdio::null())
         .stdout(Stdio::piped())
         .stderr(Stdio::piped());
+    for (k, v) in &sc.cli.host_env {
+        let v = v.replace("$ROOT", &rootp.to_string_lossy());
+        if k == "PWD" || k == "SCRUT_WORK_DIRECTORY" {
+            let _ = std::fs::create_dir_all(&v);
+        }
+        cmd.env(k, v);
+    }
     Ok(Prepared { obs, cmd, info, sim, log_path })
 }
 
@@ -597,6 +604,11 @@ fn finish(sc: &Scenario, renderer: &str, prep: Prepared, ended: Ended) -> Observ
     if obs.exit_status == Some(101) && sim.faults.iter().any(|f| matches!(f, Fault::OutputClosed { which: 2, .. })) {
         obs.exit_status = Some(1);
     }
+    // the same for scrut's stdout in the lane that looks at nothing but the exit status
+    // (`closed-stdout`: the report cannot be written, `print!` panics): "ended with 1"
+    if obs.exit_status == Some(101) && sc.lane.starts_with("closed-stdout/") && sim.faults.iter().any(|f| matches!(f, Fault::OutputClosed { which: 1, .. })) {
+        obs.exit_status = Some(1);
+    }
     // scrut panicked: an observation (no report can be expected), not a problem of the harness
     if obs.exit_status == Some(101) {
         obs.panic = Some(obs.stderr.lines().find(|l| l.contains("panicked")).unwrap_or("exit status 101").chars().take(200).collect());
@@ -627,6 +639,7 @@ fn finish(sc: &Scenario, renderer: &str, prep: Prepared, ended: Ended) -> Observ
                 nonce: t.nonce.clone(),
                 results: 0,
                 report: Report::None,
+                further: vec![],
                 raw: None,
                 raw_lossy: false,
             })
@@ -671,6 +684,9 @@ fn finish(sc: &Scenario, renderer: &str, prep: Prepared, ended: Ended) -> Observ
                             }
                             if let Some(t) = idx.map(|i| &mut dobs.tests[i]) {
                                 t.results += 1;
+                                if t.results > 1 {
+                                    t.further.push(report.clone());
+                                }
                                 if t.results == 1 {
                                     t.report = report.clone();
                                     // failed test cases come with what scrut recorded
